@@ -23,3 +23,4 @@ fn c09_native_replay() {
     else { println!("VERIF-REPLAY-REPRODUCED C09: plain suspend of another coroutine reported {rb:?} instead of Suspend((), 0)"); }
     std::mem::forget(a); std::mem::forget(b);
 }
+
